@@ -176,4 +176,37 @@ def purgeUp : Nat → St → List Bytes → St
 /-- batch delete of one name, with the purge that follows it -/
 def delBatchName (st : St) (k : List Bytes) : St := purgeUp 16 (delExact st k) k.dropLast
 
+/-! ### copy -/
+
+/-- what `CopyObjectHandler` streams into the destination: it GETs the source URL from the filer
+    (`util.DownloadFile`, which reports transport errors only) and hands the response BODY to `putToFiler`
+    without looking at the response status. -/
+inductive CopyBody where
+  | bytes (d : List Seg)   -- an existing object: its bytes
+  | empty404               -- no such entry: the filer answers 404 with an empty body, which is stored as a 0-byte object
+  | listingPage            -- the source names a directory: the filer's directory listing page is stored (bytes not modelled)
+deriving Repr, DecidableEq
+
+def copyBody (st : St) (src : List Bytes) : CopyBody :=
+  match findObj st src with
+  | some ob => .bytes ob.data
+  | none => if st.objs.any (fun o => src.length < o.key.length && isUnder src o.key) then .listingPage else .empty404
+
+/-- marker segment standing for bytes the model does not predict (the filer's listing page) -/
+def opaqueSeg : Seg := ⟨4294967295, 0, 0⟩
+
+def isOpaque (d : List Seg) : Bool := d.any (· == opaqueSeg)
+
+def CopyBody.data : CopyBody → List Seg
+  | .bytes d => d
+  | .empty404 => []
+  | .listingPage => [opaqueSeg]
+
+/-- CopyObject src → dst as the code does it: `none` = refused by the filer (destination below an object),
+    otherwise the new state and the key the data was stored under (see `putTarget`) -/
+def copyObj (st : St) (src dst : List Bytes) : Option (St × List Bytes) :=
+  match putTarget st dst with
+  | none => none
+  | some t => some (putObj st t (copyBody st src).data, t)
+
 end SwV.Model.C28
